@@ -70,6 +70,8 @@ THEOREMS = [
     "Cotengra.C01.run_order_irrelevant_model",
     "Cotengra.C01.IsEinsum.at_pos",
     "Cotengra.childrenFirst_internal",
+    "Cotengra.childrenFirst_of_childrenEarlier",
+    "Cotengra.C01.model_extract_admissible_positional",
     "Cotengra.inds_ok",
     "Cotengra.sortInds_ok",
     "Cotengra.sumOver_fubini",
